@@ -26,7 +26,7 @@ ASSUMPTIONS = ["trusted base: the library's fresh-construction path (checked by 
                "transient states between the public setters of a compound edit are never read"]
 FLOORS = {'quick': {'fresh-compare': 4000, 'shadow': 600, 'copy-independence': 150, 'container-read': 150},
           'thorough': {'fresh-compare': 40000, 'shadow': 6000, 'copy-independence': 1500}}
-MANDATORY_TAGS = ['refused-edit:remove-clamping-knot', 'refused-edit:list-setter-degree', 'refused-edit:reverse-before-knotvector', 'kept-sizes:other-object-resized', 'shared-tessellator', 'refused-edit', 'sampling:takes-the-value-of-another-direction', 'kept-sizes', 'kept-sizes:given-to-another-object', 'curve', 'surface', 'volume', 'rational', 'container', 'copy', 'op:reverse', 'op:transpose', 'op:flip', 'op:insert',
+MANDATORY_TAGS = ['tessellate-requests', 'tessellate-requests:default-after-arguments', 'knotvector:list-form-accepted', 'refused-edit:remove-clamping-knot', 'refused-edit:list-setter-degree', 'refused-edit:reverse-before-knotvector', 'kept-sizes:other-object-resized', 'shared-tessellator', 'refused-edit', 'sampling:takes-the-value-of-another-direction', 'kept-sizes', 'kept-sizes:given-to-another-object', 'curve', 'surface', 'volume', 'rational', 'container', 'copy', 'op:reverse', 'op:transpose', 'op:flip', 'op:insert',
                   'op:remove', 'op:refine', 'op:weights', 'op:ctrlpts', 'op:delta', 'op:translate', 'op:degree', 'op:knotvector',
                   'op:container-add', 'op:container-transform', 'op:container-deepcopy', 'read-mutate-read', 'op:container-delta-one-direction']
 TECHNIQUE = ("runtime monitoring: history driver with an online differential oracle (every read of a derived view vs the same read "
@@ -133,6 +133,9 @@ def gen(rng, tier, shard, nshards):
         if i % 4 == 2:
             yield {'kind': 'shared-tessellator', 'seed': rng.randrange(1 << 30),
                    'shapes': [G.rand_shape(rng, 2, dim=3, clamped_only=True, maxextra=2, maxdeg=3, pcls='uniform') for _ in range(2)]}
+        if i % 2 == 1:
+            yield {'kind': 'tessellate-requests', 'seed': rng.randrange(1 << 30),
+                   'sd': G.rand_shape(rng, 2, dim=3, clamped_only=True, maxextra=2, maxdeg=3, pcls='uniform')}
         if i % 3 == 0:
             pd = rng.choice([1, 2, 2, 3])
             yield {'kind': 'kept-sizes', 'seed': rng.randrange(1 << 30),
@@ -377,9 +380,58 @@ def check_shared_tessellator(case, ctx):
                   'those of a freshly built surface' % (k_, 'first' if k_ == order[0] else 'after the other one'), what='read')
 
 
+def check_tessellate_requests(case, ctx):
+    """(round 10) a history of tessellation requests with and without arguments on ONE surface, in-place edits in between: after every
+    step the mesh handed out is the mesh of a freshly built surface which is asked the request served last"""
+    from geomdl import operations
+    rng = random.Random(case['seed'])
+    ctx.tag('tessellate-requests')
+    ctx.nontriv(True)
+    sd = case['sd']
+    s = G.build(sd)
+    s.sample_size = 2 * 3 * rng.randint(1, 2) + 1          # 7 or 13: spacings 2 and 3 divide the cell counts
+    last = {}
+    hist = []
+    sc = max(1.0, max(abs(c) for p_ in sd['ctrlpts'] for c in p_))
+
+    def mesh_of(o):
+        return [[(v.id, list(v.uv), list(v.data)) for v in o.vertices], [list(f.data) for f in o.faces]]
+
+    for step in range(rng.randint(3, 7)):
+        r = rng.random()
+        if r < 0.55:
+            req = rng.choice([{}, {}, {'vertex_spacing': 2}, {'vertex_spacing': 3}, {'vertex_spacing': 1}])
+            s.tessellate(**req)
+            last = dict(req)
+            hist.append('tessellate(%s)' % ', '.join('%s=%r' % kv for kv in sorted(req.items())))
+            if len(hist) >= 2 and hist[-2].startswith('tessellate(v') and hist[-1] == 'tessellate()':
+                ctx.tag('tessellate-requests:default-after-arguments')
+        elif r < 0.8:
+            how = rng.choice(['translate', 'ctrlpts', 'scale'])
+            if how == 'translate':
+                operations.translate(s, [1.5 * sc, -0.5 * sc, 2.0 * sc], inplace=True)
+            elif how == 'scale':
+                operations.scale(s, 0.5, inplace=True)
+            else:
+                s.ctrlpts = [[0.5 * c + 0.25 * sc for c in p_] for p_ in s.ctrlpts]
+            hist.append(how)
+        else:
+            hist.append('read')
+        f = fresh(s, {'normalize': sd['normalize_kv']})
+        f.tessellate(**last)
+        got, exp = mesh_of(s), mesh_of(f)
+        ctx.check(near(got, exp), 'derived/tessellate-request-history', 'surface sampled %d x %d after [%s]: the mesh handed out (%d vertices / %d faces) '
+                  'is not the mesh of a freshly built surface asked tessellate(%s) (%d vertices / %d faces)'
+                  % (s.sample_size_u, s.sample_size_v, '; '.join(hist), len(got[0]), len(got[1]),
+                     ', '.join('%s=%r' % kv for kv in sorted(last.items())), len(exp[0]), len(exp[1])), what='read')
+        ctx.ok('fresh-compare')
+
+
 def check(case, ctx):
     if case.get('kind') == 'shared-tessellator':
         return check_shared_tessellator(case, ctx)
+    if case.get('kind') == 'tessellate-requests':
+        return check_tessellate_requests(case, ctx)
     if case.get('kind') == 'kept-sizes':
         return check_kept_sizes(case, ctx)
     if case.get('kind') == 'refused-edit':
@@ -650,6 +702,12 @@ def check(case, ctx):
                 kv = G.knot_vector(rng, p, n, 'bezier' if n == p + 1 else rng.choice(['uniform', 'random']))
                 if pdim == 1:
                     o.knotvector = list(kv)
+                elif rng.random() < 0.4:
+                    # (round 10) the list form of the setter: all directions in one assignment, one of them new
+                    kvs_ = [list(k) for k in G.kvs_of(o)]
+                    kvs_[d] = list(kv)
+                    o.knotvector = kvs_
+                    ctx.tag('knotvector:list-form-accepted')
                 else:
                     setattr(o, 'knotvector_' + 'uvw'[d], list(kv))
                 e['inserted'] = []
